@@ -6,7 +6,8 @@ package data_test
 // (hand-written bytes, not produced by restic's encoder) for small DAGs of
 // <= 7 trees: diamond, a subtree shared by two roots, a chain whose inner
 // tree is also a root (plus a duplicated root), huge trees (LookupBlobSize
-// reports > 50 MiB, they go to the dedicated worker), missing trees, trees
+// reports > 50 MiB, they go to the dedicated worker; one shape with 14 of them,
+// more than the huge-tree queue holds, explored with deviation bound 1), missing trees, trees
 // that are not JSON at all ("garbage"), trees that become undecodable after a
 // few valid entries ("partial"), dir entries without / with the null subtree
 // id, the same subtree twice in one tree.  Every LoadBlob is a gate: the
@@ -109,6 +110,7 @@ type verifC42Tree struct {
 
 type verifC42Shape struct {
 	name  string
+	bound int // 0: complete search; > 0: deviation bound for this shape (many loads)
 	conns uint
 	trees []verifC42Tree // children first
 	roots []string
@@ -1078,6 +1080,21 @@ func verifC42Shapes() []verifC42Shape {
 			{label: "H", kind: "huge", ents: []verifC42Ent{d("a", "A"), f("h", "b3"), d("x", "X")}},
 			{label: "R", ents: []verifC42Ent{d("a", "A"), d("h", "H"), f("r", "b2")}},
 		}},
+		func() verifC42Shape {
+			// more huge trees than the huge-tree queue holds (10) plus the one being loaded: the traversal has
+			// to wait for the dedicated worker; 14 huge sub-directories and one ordinary one
+			sh := verifC42Shape{name: "manyhuge", bound: 1, conns: 1, roots: []string{"R"}}
+			var rents []verifC42Ent
+			for i := 1; i <= 14; i++ {
+				lab := fmt.Sprintf("H%02d", i)
+				sh.trees = append(sh.trees, verifC42Tree{label: lab, kind: "huge", ents: []verifC42Ent{f("f", fmt.Sprintf("b%d", 10+i))}})
+				rents = append(rents, d(fmt.Sprintf("h%02d", i), lab))
+			}
+			sh.trees = append(sh.trees, verifC42Tree{label: "N", ents: []verifC42Ent{f("n", "b1")}})
+			rents = append(rents, d("n", "N"))
+			sh.trees = append(sh.trees, verifC42Tree{label: "R", ents: rents})
+			return sh
+		}(),
 		{name: "hugeroots", conns: 1, roots: []string{"H1", "H2"}, trees: []verifC42Tree{
 			{label: "S", ents: []verifC42Ent{f("s", "b1")}},
 			{label: "H1", kind: "huge", ents: []verifC42Ent{f("f", "b2"), d("s", "S")}},
@@ -1234,7 +1251,9 @@ func TestVerif_C42(t *testing.T) {
 				}
 				sc, check := verifC42Scenario(r, mode, m, name, base)
 				bound := -1
-				if mode == "check" {
+				if sh.bound > 0 {
+					bound = sh.bound
+				} else if mode == "check" {
 					// every execution opens the repository (~20 ms): deviation bound 2 in the quick tier, complete in thorough
 					bound = vh.Pick(r, 2, -1)
 				}
